@@ -231,10 +231,10 @@ class C10(Prop):
     extractors = ["E5-gates"]
     fixed_prefix = 1
     quick_budget = 1300
-    thorough_budget = 30000
+    thorough_budget = 24000
     quick_deadline_s = 100
     thorough_deadline_s = 800
-    all_branches = ["f:rate", "f:replay", "f:allow", "f:block", "f:rx-hit", "f:sub-hit", "l:off", "l:bad", "l:new",
+    all_branches = ["h:raise", "h:ok", "c:hook-raise", "c:hook-ok", "f:rate", "f:replay", "f:allow", "f:block", "f:rx-hit", "f:sub-hit", "l:off", "l:bad", "l:new",
                     "l:replace", "g:hit", "g:miss", "c:allow", "c:block-sev", "c:block-err", "c:block-acute",
                     "c:cooling-low", "i:lvl0", "i:lvl1", "i:lvl2", "i:lvl3", "i:lvl4", "v:len-short", "v:len-long",
                     "v:null", "v:ctl", "v:json-size", "v:json-depth", "v:json-dec", "v:json-val", "v:json-rec"]
@@ -421,8 +421,9 @@ class C10(Prop):
         lines = [" ".join(["mem", str(thr), rate, show_bool(adaptive)] + sigs)]
         hist = []
         for _ in range(rng.choice([1, 2, 3, 4, 6, 8, 10, 14])):
-            op = rng.choice(["filter"] * 13 + ["learn", "learn", "forget", "import", "thr", "addsig", "adv", "adv",
-                                               "clearaudit", "stats", "export"])
+            op = rng.choice(["filter"] * 14 + ["learn", "learn", "forget", "import", "thr", "addsig", "adv", "adv",
+                                               "clearaudit", "stats", "export", "thrattr", "rate", "rate", "adaptive",
+                                               "hook", "hook"])
             if op == "filter":
                 c = self._content(rng, sigs + list(learned.values()), hist, tier, huge_ok)
                 if len(c) > 50_000:
@@ -453,8 +454,15 @@ class C10(Prop):
                 for s in abs_:
                     learned[s.split("/")[0]] = s
                 lines.append(" ".join(["import"] + abs_))
-            elif op == "thr":
-                lines.append(f"thr {rng.choice([0, 1, 2, 3])}")
+            elif op in ("thr", "thrattr"):
+                lines.append(f"{op} {rng.choice([0, 1, 2, 3])}")
+            elif op == "rate":
+                lines.append(f"rate {rng.choice(['none', '0', '1', '2', '3', '5', '8'])}")
+            elif op == "adaptive":
+                adaptive = rng.random() < 0.5
+                lines.append(f"adaptive {show_bool(adaptive)}")
+            elif op == "hook":
+                lines.append(f"hook {rng.choice(['none', 'ok', 'R', 'K', 'E', 'A'])}")
             elif op == "addsig":
                 s = self._rand_sig(rng, 3)
                 sigs.append(s)
@@ -464,6 +472,33 @@ class C10(Prop):
             else:
                 lines.append(op)
         return {"lines": lines, "note": "random membrane history"}
+
+    def _gen_retune(self, rng):
+        """an operator retunes the live membrane: rate limit raised / lowered / switched off and on, a hook that
+        fails, then a burst inside one window"""
+        r0 = rng.choice(["none", "0", "1", "2", "3"])
+        r1 = rng.choice(["none", "0", "1", "2", "3", "5", "8"])
+        sigs = list(self.mb_builtin) if rng.random() < 0.5 else [self._sigtok("jailbreak", 3, False)]
+        lines = [" ".join(["mem", str(rng.choice([1, 2, 2, 3])), r0, "1"] + sigs)]
+        hist = []
+
+        def burst(n):
+            for _ in range(n):
+                if rng.random() < 0.25:
+                    lines.append(f"adv {rng.choice([125_000, 1_000_000, 20_000_000, 59_875_000, 60_000_000])}")
+                c = self._content(rng, sigs, hist, "quick", False) if rng.random() < 0.4 else rng.choice(BENIGN) + str(len(lines))
+                hist.append(c)
+                lines.append("filter " + hexs(c))
+        if rng.random() < 0.6:
+            lines.append(f"hook {rng.choice(['ok', 'R', 'K', 'E', 'A'])}")
+        burst(rng.choice([0, 1, 2, 3, 4]))
+        lines.append(f"rate {r1}")
+        burst((0 if r1 == "none" else int(r1)) + rng.choice([1, 2, 3]))
+        if rng.random() < 0.3:
+            lines.append(f"rate {rng.choice(['none', '1', '2'])}")
+            burst(3)
+        lines.append("stats")
+        return {"lines": lines, "note": "retuned live membrane (rate limit / hook), burst in one window"}
 
     def _json_text(self, rng, md, ms, deep_ok):
         k = rng.random()
@@ -518,7 +553,8 @@ class C10(Prop):
         hist = []
         deep_ok = huge_ok
         for _ in range(rng.choice([1, 2, 3, 4, 6, 8])):
-            op = rng.choice(["check"] * 12 + ["addpat", "addval", "resetinfl", "adv", "adv", "istats"])
+            op = rng.choice(["check"] * 13 + ["addpat", "addval", "resetinfl", "adv", "adv", "istats", "setvals",
+                                              "sevthr", "ihook", "ihook"])
             if op == "check":
                 if jcfg and rng.random() < 0.55:
                     c = self._json_text(rng, jcfg[0], jcfg[1], deep_ok)
@@ -544,6 +580,14 @@ class C10(Prop):
                     lines.append(f"addval L:{rng.choice([0, 2])}:{rng.choice([30, 100_000])}")
                 else:
                     lines.append(f"addval C:{rng.choice([0, 1])}:{rng.choice([0, 1])}")
+            elif op == "setvals":
+                vs = rng.choice(["empty", "L:0:50", "C:0:0", "J:2:1000", "L:3:100000,C:1:0", "J:10:100000,C:0:0"])
+                jcfg = next(((int(v.split(":")[1]), int(v.split(":")[2])) for v in vs.split(",") if v.startswith("J")), None)
+                lines.append("setvals " + vs)
+            elif op == "sevthr":
+                lines.append(f"sevthr {rng.choice([0, 1, 2, 3, 4, 5, 6])}")
+            elif op == "ihook":
+                lines.append(f"ihook {rng.choice(['none', 'ok', 'R', 'K', 'E'])}")
             elif op == "adv":
                 lines.append(f"adv {rng.choice([1_000_000, 59_000_000, 60_000_000, 61_000_000, 900_000_000, 899_875_000])}")
             else:
@@ -554,7 +598,9 @@ class C10(Prop):
         huge_budget = 6 if tier == "quick" else 60
         for i in range(n):
             huge_ok = huge_budget > 0 and rng.random() < (0.02 if tier == "quick" else 0.01)
-            c = self._gen_membrane(rng, tier, huge_ok) if rng.random() < 0.55 else self._gen_innate(rng, tier, huge_ok)
+            k = rng.random()
+            c = self._gen_retune(rng) if k < 0.08 else self._gen_membrane(rng, tier, huge_ok) if k < 0.58 \
+                else self._gen_innate(rng, tier, huge_ok)
             if huge_ok and any(len(l) > 100_000 for l in c["lines"]):
                 huge_budget -= 1
             yield c
@@ -564,7 +610,7 @@ class C10(Prop):
         bad, badv, emb, ok = "jailbreak", "JailBreak", "well, jailbreak it", "hello"
         alpha = ["filter " + hexs(bad), "filter " + hexs(badv), "filter " + hexs(emb), "filter " + hexs(ok),
                  "thr 3", "thr 0", "forget " + hexs("jailbreak"), "learn " + self._sigtok("jailbreak", 2, False),
-                 "adv 60000000", "adv 59875000"]
+                 "adv 60000000", "adv 59875000", "hook R", "hook A"]
         cases = []
         for cfg in ["mem 2 none 1", "mem 2 1 1", "mem 3 2 1 " + self._sigtok("jailbreak", 3, False)]:
             for k in range(1, depth + 1):
@@ -588,9 +634,20 @@ class C10(Prop):
                     shipped.append({"lines": [" ".join(["inn", str(thr), "15", "none"] + self.in_builtin)]
                                     + ["check " + hexs(v) for v in variants] + ["istats"],
                                     "note": "shipped innate pattern x threshold x variants"})
-        return [{"name": "every shipped signature (membrane, innate) x every instance of the vetted table x every "
+        retune = []
+        for r0 in ["none", "0", "1", "2", "3"]:
+            for r1 in ["none", "0", "1", "2", "3", "5"]:
+                for gap in (None, "adv 30000000", "adv 60000000"):
+                    for hook in (None, "hook K"):
+                        ls = [f"mem 2 {r0} 1 " + self._sigtok("jailbreak", 3, False)] + ([hook] if hook else [])
+                        ls += ["filter " + hexs(f"warm up {i}") for i in range(3)] + [f"rate {r1}"] + ([gap] if gap else [])
+                        ls += ["filter " + hexs(f"burst {i}" + (" jailbreak" if i == 2 else "")) for i in range(8)] + ["stats"]
+                        retune.append({"lines": ls, "note": "rate limit re-assigned on the live membrane, burst in one window"})
+        return [{"name": "rate limit re-assigned on a live membrane: 5 initial x 6 new limits x 3 time gaps x hook/no hook, "
+                         "3 warm-up calls + burst of 8", "cases": retune},
+                {"name": "every shipped signature (membrane, innate) x every instance of the vetted table x every "
                          "threshold x 5-7 case/embedding variants", "cases": shipped},
-                {"name": f"membrane: all histories of <= {depth} ops over a 10-op alphabet (learn/forget/threshold/"
+                {"name": f"membrane: all histories of <= {depth} ops over a 12-op alphabet (learn/forget/threshold/hook/"
                          f"time/variants of one signature) x 3 configurations", "cases": cases}]
 
     # ----------------------------------------------------------------------------------------------------------
@@ -611,6 +668,55 @@ class C10(Prop):
         if k == "C":
             return self.IN.CharacterSetValidator(allow_control_chars=a == "1", allow_null=b == "1")
         return self.IN.JSONValidator(max_depth=int(a), max_size=int(b))
+
+    def _mk_hook(self, m, kind):
+        """scripted on_threat adversary: reads the audit log and the statistics, then returns or raises"""
+        if kind == "none":
+            return None
+        harness = self
+
+        def hook(result):
+            log = m.get_audit_log()
+            st = m.get_statistics()
+            rec = {"result": result, "seen": (len(log), bool(log) and log[-1] is result, st["total_blocked"])}
+            harness.hookrec = rec
+            exc = None
+            if kind == "R":
+                exc = RuntimeError("alert sink unreachable")
+            elif kind == "K":
+                exc = KeyError()
+            elif kind == "E" and st["total_blocked"] % 2 == 0:
+                exc = ValueError("")
+            elif kind == "A" and not (log and log[-1] is result):
+                exc = AssertionError()
+            if exc is not None:
+                rec["raised"] = exc
+                raise exc
+        return hook
+
+    def _mk_ihook(self, im, kind):
+        """scripted on_inflammation adversary"""
+        if kind == "none":
+            return None
+        harness = self
+
+        def hook(response):
+            st = im.stats()
+            state = im.get_inflammation_state()
+            rec = {"result": response,
+                   "seen": (int(state.level), state.trigger_count, st["check_count"], st["block_count"])}
+            harness.hookrec = rec
+            exc = None
+            if kind == "R":
+                exc = RuntimeError("pager down")
+            elif kind == "K":
+                exc = KeyError()
+            elif kind == "E" and st["check_count"] % 2 == 0:
+                exc = ValueError("")
+            if exc is not None:
+                rec["raised"] = exc
+                raise exc
+        return hook
 
     def _rx_obs(self, content):
         """canonical list of the regex calls made since the log was cleared + the table handed to the driver"""
@@ -664,20 +770,35 @@ class C10(Prop):
                     if m is None:
                         m = MB.Membrane(silent=True)
                     content = dec(t[1])
+                    self.hookrec = None
+                    exc = None
+                    r = None
                     try:
                         r = m.filter(self.Signal(content=content))
                     except Exception as e:
-                        obs.append(f"raise:{type(e).__name__}")
-                        lines[idx] = line + " @"
-                        continue
+                        exc = e
                     calls, table = self._rx_obs(content)
                     lines[idx] = line + " @ " + table if table else line + " @"
                     log = m.get_audit_log()
                     st = m.get_statistics()
-                    ms = sorted(self._sigtok(s.pattern, s.level.value, s.is_regex) for s in r.matched_signatures)
-                    obs.append(f"{show_bool(r.allowed)} {r.threat_level.value} m=[{','.join(ms)}] audit={len(log)} "
+                    hr = self.hookrec
+                    hk = "-" if hr is None else f"{hr['seen'][0]}/{show_bool(hr['seen'][1])}/{hr['seen'][2]}"
+                    if exc is not None:
+                        if hr is not None and hr.get("raised") is exc:
+                            head = f"raise:hook:{type(exc).__name__}"
+                            r = hr["result"]
+                        else:
+                            obs.append(f"raise:{type(exc).__name__} audit={len(log)} last=0 tf={st['total_filtered']} "
+                                       f"tb={st['total_blocked']} ln={st['learned_patterns']} bh={st['blocked_hashes']} "
+                                       f"rx={calls} hk={hk}")
+                            continue
+                    else:
+                        ms = sorted(self._sigtok(s.pattern, s.level.value, s.is_regex) for s in r.matched_signatures)
+                        head = f"{show_bool(r.allowed)} {r.threat_level.value} m=[{','.join(ms)}]"
+                    obs.append(f"{head} audit={len(log)} "
                                f"last={show_bool(bool(log) and log[-1] is r)} tf={st['total_filtered']} "
-                               f"tb={st['total_blocked']} ln={st['learned_patterns']} bh={st['blocked_hashes']} rx={calls}")
+                               f"tb={st['total_blocked']} ln={st['learned_patterns']} bh={st['blocked_hashes']} rx={calls} "
+                               f"hk={hk}")
                 elif op == "learn":
                     pat, lvl, rx = self._parse_sig(t[1])
                     try:
@@ -704,6 +825,18 @@ class C10(Prop):
                     obs.append(f"ok ln={m.get_statistics()['learned_patterns']}")
                 elif op == "thr":
                     m.set_threshold(MB.ThreatLevel(int(t[1])))
+                    obs.append("ok")
+                elif op == "thrattr":
+                    m.threshold = MB.ThreatLevel(int(t[1]))
+                    obs.append("ok")
+                elif op == "rate":
+                    m.rate_limit = None if t[1] == "none" else int(t[1])
+                    obs.append("ok")
+                elif op == "adaptive":
+                    m.enable_adaptive = t[1] == "1"
+                    obs.append("ok")
+                elif op == "hook":
+                    m.on_threat = self._mk_hook(m, t[1])
                     obs.append("ok")
                 elif op == "addsig":
                     m.add_signature(self._mk_sig(t[1]))
@@ -742,6 +875,7 @@ class C10(Prop):
                         im = IN.InnateImmunity(silent=True)
                     content = dec(t[1])
                     exc = None
+                    self.hookrec = None
                     try:
                         r = im.check(content)
                     except Exception as e:
@@ -752,21 +886,35 @@ class C10(Prop):
                         js = "O"
                     lines[idx] = (line + " @ " + table).rstrip() + ((" ; " + js) if js else "")
                     s = im.stats()
+                    state = im.get_inflammation_state()
+                    hr = self.hookrec
+                    hk = "-" if hr is None else "/".join(str(x) for x in hr["seen"])
+                    tail = (f"st={int(state.level)} tc={state.trigger_count} "
+                            f"cool={show_bool(state.is_in_cooldown())} cc={s['check_count']} bc={s['block_count']} "
+                            f"rx={calls} json={len(self.jsonlog)} hk={hk}")
                     if exc is not None:
-                        obs.append(f"raise:{type(exc).__name__} cc={s['check_count']} bc={s['block_count']} rx={calls} "
-                                   f"json={len(self.jsonlog)}")
+                        cls = type(exc).__name__
+                        if hr is not None and hr.get("raised") is exc:
+                            cls = "hook:" + cls
+                        obs.append(f"raise:{cls} {tail}")
                         continue
                     ms = sorted(self._sigtok(p.pattern, p.severity, p.is_regex) for p in r.matched_patterns)
-                    state = im.get_inflammation_state()
                     obs.append(f"{show_bool(r.allowed)} m=[{','.join(ms)}] err={len(r.structural_errors)} "
-                               f"lvl={int(r.inflammation.level)} st={int(state.level)} tc={state.trigger_count} "
-                               f"cool={show_bool(state.is_in_cooldown())} cc={s['check_count']} bc={s['block_count']} "
-                               f"rx={calls} json={len(self.jsonlog)}")
+                               f"lvl={int(r.inflammation.level)} {tail}")
                 elif op == "addpat":
                     im.add_pattern(self._mk_pat(t[1]))
                     obs.append("ok")
                 elif op == "addval":
                     im.add_validator(self._mk_val(t[1]))
+                    obs.append("ok")
+                elif op == "setvals":
+                    im.validators = [] if t[1] in ("empty", "none") else [self._mk_val(v) for v in t[1].split(",")]
+                    obs.append("ok")
+                elif op == "sevthr":
+                    im.severity_threshold = int(t[1])
+                    obs.append("ok")
+                elif op == "ihook":
+                    im.on_inflammation = self._mk_ihook(im, t[1])
                     obs.append("ok")
                 elif op == "resetinfl":
                     im.reset_inflammation()
@@ -780,8 +928,9 @@ class C10(Prop):
                 else:
                     obs.append("bad-op")
             except (AttributeError, TypeError, ValueError, IndexError, KeyError) as e:
-                if (m is None and op not in ("inn", "check", "addpat", "addval", "resetinfl", "istats")) or \
-                        (im is None and op in ("addpat", "addval", "resetinfl", "istats")):
+                if (m is None and op not in ("inn", "check", "addpat", "addval", "resetinfl", "istats", "setvals",
+                                             "sevthr", "ihook")) or \
+                        (im is None and op in ("addpat", "addval", "resetinfl", "istats", "setvals", "sevthr", "ihook")):
                     obs.append("bad-op")      # operation before any configuration line (shrunk / malformed case)
                 else:
                     raise
@@ -894,9 +1043,13 @@ class C10(Prop):
                 audit, now, allowed_times, blocked_before, epoch_blocked = 0, 0, [], {}, []
             elif op == "adv":
                 now += int(t[1])
-            elif op == "thr":
+            elif op in ("thr", "thrattr"):
                 thr = int(t[1])
                 epoch_blocked = []
+            elif op == "rate":
+                rate = None if t[1] == "none" else int(t[1])
+            elif op == "adaptive":
+                adaptive = t[1] == "1"
             elif op == "addsig":
                 sigs.append(self._parse_sig(t[1]))
             elif op == "learn":
@@ -916,13 +1069,27 @@ class C10(Prop):
                 audit = 0
             elif op == "filter":
                 content = dec(t[1])
-                if o.startswith("raise:"):
-                    out.append(Violation("never_raises", "a FilterResult for every input string", o, idx))
-                    continue
                 f = o.split(" ")
+                audit += 1
+                hk = f[-1][3:] if f[-1].startswith("hk=") else "-"
+                if hk != "-":
+                    # while the hook runs, the decision it is told about is already in the audit trail
+                    seen = hk.split("/")
+                    if seen[0] != str(audit) or seen[1] != "1":
+                        out.append(Violation("audit_visible_to_hook", f"hook sees audit={audit} ending with its decision",
+                                             f"hook saw {hk}", idx))
+                if o.startswith("raise:"):
+                    if not o.startswith("raise:hook:"):
+                        out.append(Violation("never_raises", "a FilterResult for every input string", o[:80], idx))
+                        continue
+                    # the exception is the hook's; the decision (a block: hooks only hear about threats) must be booked
+                    if f[1] != f"audit={audit}" or f[2] != "last=1":
+                        out.append(Violation("audit_complete", f"audit={audit} last=1 (decision taken before the hook raised)",
+                                             f"{f[1]} {f[2]}", idx))
+                    blocked_before.setdefault(content, idx)
+                    continue
                 allowed, level = f[0] == "1", int(f[1])
                 matched = [self._parse_sig(x) for x in f[2][3:-1].split(",") if x]
-                audit += 1
                 # every decision is appended to the audit trail
                 if f[3] != f"audit={audit}" or f[4] != "last=1":
                     out.append(Violation("audit_complete", f"audit={audit} last=1", f"{f[3]} {f[4]}", idx))
@@ -955,12 +1122,13 @@ class C10(Prop):
                                              f"blocked like {prev[0][:40]!r}", o[:80], idx))
                         break
                 # rate window: at most rate_limit admitted in any 60 s window
-                if allowed:
+                # (judged by the limit visible through m.rate_limit at this moment; admissions made while no limit
+                #  was in force are not counted)
+                if allowed and rate is not None:
                     allowed_times.append(now)
-                    if rate is not None:
-                        k = sum(1 for x in allowed_times if now - WINDOW_US < x <= now)
-                        if k > rate:
-                            out.append(Violation("rate_window", f"<= {rate} admitted in the last 60 s", f"{k}", idx))
+                    k = sum(1 for x in allowed_times if now - WINDOW_US < x <= now)
+                    if k > rate:
+                        out.append(Violation("rate_window", f"<= {rate} admitted in the last 60 s", f"{k}", idx))
                 if not allowed and not rate_or_replay:
                     blocked_before.setdefault(content, idx)
                     if blockers and len(content) < 5000:
@@ -972,6 +1140,7 @@ class C10(Prop):
         pats, vals = [], []
         dvals = ["L:0:100000", "C:0:0"]
         recent = []
+        checks = 0
         for idx, (line, o) in enumerate(zip(lines, obs)):
             t = line.split(" ")
             op = t[0]
@@ -980,16 +1149,27 @@ class C10(Prop):
                 vals = list(dvals) if t[3] in ("none", "empty") else t[3].split(",")
                 pats = [self._parse_sig(x) for x in t[4:]]
                 recent = []
+                checks = 0
             elif op == "addpat":
                 pats.append(self._parse_sig(t[1]))
             elif op == "addval":
                 vals.append(t[1])
+            elif op == "setvals":
+                vals = [] if t[1] in ("empty", "none") else t[1].split(",")
+            elif op == "sevthr":
+                thr = int(t[1])
+                recent = []
             elif op == "check":
                 content = dec(t[1])
-                if o.startswith("raise:"):
-                    out.append(Violation("never_raises", "an InnateCheckResult for every input string", o[:80], idx))
-                    continue
+                checks += 1
                 f = o.split(" ")
+                cc = next((x for x in f if x.startswith("cc=")), "cc=?")
+                if cc != f"cc={checks}":
+                    out.append(Violation("bookkeeping_complete", f"cc={checks}", cc, idx))
+                if o.startswith("raise:"):
+                    if not o.startswith("raise:hook:"):
+                        out.append(Violation("never_raises", "an InnateCheckResult for every input string", o[:80], idx))
+                    continue
                 allowed = f[0] == "1"
                 matched = [self._parse_sig(x) for x in f[1][3:-1].split(",") if x]
                 hits = [s for s in pats if self._sig_hits(s, content)]
